@@ -11,7 +11,7 @@ import time
 import extract_linemap
 import gen_linemap
 import kani_run
-import semtok_verus
+import side_unit
 from common import VERIF, REPO, scratch, Undecided, write_evidence, write_replay, load_known_findings, finish
 from rustcut import AnchorLost
 
@@ -102,14 +102,15 @@ def main(prop, tier):
     try:
         with cf.ThreadPoolExecutor(max_workers=3) as pool:
             fc = [pool.submit(run_canary, prop, c, i, tier) for i, c in enumerate(cans)]
-            if prop == 'C19':
-                # deductive part (Verus, unbounded in the highlight list and the document); the Kani harnesses below check
-                # the line-map contract it assumes, and the encoder itself once more, on enumerated documents
-                fd = pool.submit(semtok_verus.run)
-                fdc = [pool.submit(semtok_verus.canary, c, i) for i, c in enumerate(semtok_verus.CANARIES[:1 if tier == 'quick' else None])]
+            du = DED_UNIT.get(prop)
+            if du:
+                # deductive part (Verus, unbounded in the document and in the inputs of the extracted functions); the Kani
+                # harnesses below check the line-map contract it assumes, and the same functions once more, on enumerated documents
+                fd = pool.submit(side_unit.run, du)
+                fdc = [pool.submit(side_unit.canary, du, c, i) for i, c in enumerate(side_unit.UNITS[du]['canaries'][:1 if tier == 'quick' else None])]
             results = kani_run.run_many(d, names, FLAGS, 2400, jobs=jobs)
             can = [f.result() for f in fc]
-            if prop == 'C19':
+            if du:
                 ded = fd.result()
                 ded_can = [f.result() for f in fdc]
     except Undecided as e:
@@ -160,9 +161,9 @@ def main(prop, tier):
             violations.append((path, wit is not None))
     if ded and ded['status'] == 'verified':
         if ded.get('reachability_guard') != 'rejected-as-required':
-            guard.append('semtok unit: precondition reachability guard: %s' % ded.get('reachability_guard'))
+            guard.append('%s unit: precondition reachability guard: %s' % (ded['unit'], ded.get('reachability_guard')))
         if any(c['status'] == 'NOT-TRIPPED' for c in ded_can):
-            guard.append('semtok unit: canary not detected: %s' % [c['name'] for c in ded_can if c['status'] == 'NOT-TRIPPED'])
+            guard.append('%s unit: canary not detected: %s' % (ded['unit'], [c['name'] for c in ded_can if c['status'] == 'NOT-TRIPPED']))
     ok = [r for r in results if r['status'] == 'SUCCESSFUL']
     for r in ok:
         if r.get('unsat_covers'):
@@ -189,7 +190,7 @@ def main(prop, tier):
         cov['deductive_part'] = ded
         if ded['status'] == 'verified':
             cov['obligations'], cov['discharged'] = ded['verified'] + ded['errors'], ded['verified']
-    assumptions = ex['standins'] + ([DED_NOTE] if ded else []) + [
+    assumptions = ex['standins'] + ([DED_NOTE[ded['unit']]] if ded else []) + [
         'oracle: tools/lsp_reference.py, a naive LSP client written from the specification (shares no code with glas)',
         'server.rs::on_did_change (tokio / async-lsp) is not buildable under Kani: the per-change loop is covered only by the induction argument of DESIGN.md 3.4 (K6)',
         'Slab, Arc, text-size, anyhow are the real crates, executed symbolically; arithmetic is CBMC machine arithmetic with overflow checks (debug-build semantics)',
@@ -202,7 +203,14 @@ def main(prop, tier):
     finish(prop, violations, known_lines)
 
 
-DED_NOTE = ('deductive part (Verus): convert::to_semantic_tokens, to_range and semantic_tokens::to_semantic_type_and_modifiers are verified for ALL highlight lists '
+DED_UNIT = {'C19': 'semtok', 'C15': 'conv'}
+DED_NOTE = {}
+DED_NOTE['conv'] = ('deductive part (Verus): convert::from_pos and convert::from_range (ensure! expanded, R17) are verified for ALL client positions / ranges and ALL line maps, '
+                    'relative to the contracts of LineMap::last_line / end_col_for_line (requires an existing line) / pos_for_line_col (requires a valid position) and Vfs::line_map_for_file: a position is accepted exactly '
+                    'when its line exists and its column is within the line, and then converts to the line map\'s offset; a range exactly when both ends are accepted and it is not reversed; TextRange::new is only '
+                    'reached with start <= end; the validating calls happen before the converting call. ASSUMED there: those contracts (what the Kani harnesses establish on enumerated documents), the stand-in structs, anyhow::Error as an opaque value. '
+                    'If the unit cannot be extracted or Verus rejects it, this part is reported as undecided and the bounded harnesses alone decide.')
+DED_NOTE['semtok'] = ('deductive part (Verus): convert::to_semantic_tokens, to_range and semantic_tokens::to_semantic_type_and_modifiers are verified for ALL highlight lists '
             '(sorted, disjoint, on character boundaries, inside the text) and ALL line maps satisfying LineMap::ok (line_col_for_pos monotone on boundaries, lines <= last_line, '
             'columns <= end_col_for_line): no arithmetic underflow/overflow, end_col_for_line only called for existing lines, and the LSP decoding of the result equals the per-line pieces '
             'of the highlights with the type index of the advertised legend. ASSUMED there: the contracts of LineMap::line_col_for_pos / end_col_for_line / last_line (external_body; these '
